@@ -6,6 +6,7 @@ import (
 	"errors"
 	"fmt"
 	"os"
+	"strings"
 	"sync"
 	"sync/atomic"
 	"testing/synctest"
@@ -54,7 +55,29 @@ type Scenario struct {
 	WritesB      int        `json:"writes_phase_b"`
 	PingMs       int        `json:"ping_ms"`
 	DuringWrites int        `json:"writes_during_outage"`
+	// SlowLog: the application's logger takes SlowLogMs (virtual) for every message whose format starts with this text
+	// (a logger may block - file, network, a mutex of the application); the listed sites hold no library lock.
+	SlowLog   string `json:"slow_logger_at,omitempty"`
+	SlowLogMs int    `json:"slow_logger_ms,omitempty"`
 }
+
+// SlowLogSites are log calls of the library that sit between two steps of the reconnect / resume procedure.
+var SlowLogSites = []string{"Succeeded in resuming upstream", "Succeeded in resuming downstream", "Wait until connected", "Try reconnecting", "Reconnected"}
+
+type slowLogger struct {
+	prefix string
+	d      time.Duration
+}
+
+func (l *slowLogger) hit(f string) {
+	if strings.HasPrefix(f, l.prefix) {
+		time.Sleep(l.d)
+	}
+}
+func (l *slowLogger) Infof(_ context.Context, f string, _ ...any)  { l.hit(f) }
+func (l *slowLogger) Warnf(_ context.Context, f string, _ ...any)  { l.hit(f) }
+func (l *slowLogger) Errorf(_ context.Context, f string, _ ...any) { l.hit(f) }
+func (l *slowLogger) Debugf(_ context.Context, f string, _ ...any) { l.hit(f) }
 
 type CallRes struct {
 	Name          string
@@ -331,6 +354,8 @@ func Run(s Scenario) *Outcome {
 	}
 	if os.Getenv("VERIF_DEBUG") != "" {
 		opts = append(opts, iscp.WithConnLogger(log.NewStd()))
+	} else if s.SlowLog != "" {
+		opts = append(opts, iscp.WithConnLogger(&slowLogger{prefix: s.SlowLog, d: time.Duration(s.SlowLogMs) * time.Millisecond}))
 	}
 	var store *recStorage
 	{
@@ -345,6 +370,7 @@ func Run(s Scenario) *Outcome {
 			opts = append(opts, iscp.VerifWithSentStorage(store))
 		}
 	}
+	slowLogSlack := 4 * time.Duration(s.SlowLogMs) * time.Millisecond
 	conn, err := w.Connect(opts...)
 	if err != nil {
 		o.Notes = append(o.Notes, "connect: "+err.Error())
@@ -663,8 +689,8 @@ func Run(s Scenario) *Outcome {
 			break
 		}
 		o.RecoverySecs = append(o.RecoverySecs, time.Since(faultAt).Seconds())
-		// give resumes time to finish (retry back-off is capped at 7.5 s)
-		time.Sleep(15 * time.Second)
+		// give resumes time to finish (retry back-off is capped at 7.5 s; a blocking logger holds up every step it is called at)
+		time.Sleep(15*time.Second + slowLogSlack)
 		w.Net.FailNextDials(0)
 		w.Net.SetDialDelay(0)
 		hasFault = arm()
@@ -684,7 +710,7 @@ func Run(s Scenario) *Outcome {
 			lc.SendAck(h.us, []*message.UpstreamChunkResult{{SequenceNumber: h.seq, ResultCode: message.ResultCodeSucceeded, ResultString: "OK"}})
 		}
 	}
-	time.Sleep(20 * time.Second)
+	time.Sleep(20*time.Second + slowLogSlack)
 	synctest.Wait()
 	// phase B writes + probes
 	for _, u := range ups {
